@@ -32,11 +32,11 @@ type tlcResult struct {
 }
 
 type tlcOpts struct {
-	Module   string            // e.g. "MC_Expr"
-	Cfg      string            // text of the .cfg
-	Workers  int               // 0 = all cores
+	Module   string // e.g. "MC_Expr"
+	Cfg      string // text of the .cfg
+	Workers  int    // 0 = all cores
 	Timeout  time.Duration
-	Simulate string            // e.g. "num=1000" ("" = model checking)
+	Simulate string // e.g. "num=1000" ("" = model checking)
 	Depth    int
 	Seed     int64
 	Extra    map[string]string // extra files to place in the scratch dir (name -> content)
